@@ -45,8 +45,6 @@ Proof. split; [vm_compute; reflexivity|eexists; split; vm_compute; reflexivity].
 
 Theorem C32_collect_tab_refuted : differs (lit "gcc" ++ [9] ++ lit "-DX")%string.
 Proof. exact collect_tab_refuted. Qed.
-Theorem C32_collect_newline_refuted : differs (lit "gcc" ++ [10] ++ lit "-DX")%string.
-Proof. exact collect_newline_refuted. Qed.
 Theorem C32_collect_backslash_plain_refuted : differs (lit "gcc -DA=a\nb")%string.
 Proof. exact collect_backslash_plain_refuted. Qed.
 Theorem C32_collect_backslash_dq_refuted : differs ([34] ++ lit "-DA=a\ b" ++ [34])%string.
